@@ -6,8 +6,8 @@ def run(tier, seed, replay):
     def nontrivial(c):
         return len(c["accept"]) >= 1 and (c["z"]["kind"] != "num" or c["x"]["kind"] != "num" or c["y"]["kind"] != "num"
                                           or c["flags"]["flip"] == 1 or c["src"]["tc"] != "none")
-    rule = ("TLC enumerates 4 server instances (best/fast x flip/swap flags) x 14 sources (pbf stored none/gzip/brotli, png/jpg/webp stored none and gzip/brotli, mbtiles, "
-            "pmtiles, tar; named as [id]path, path[id], path#id or plain path; two ids that need percent-encoding) x 29 coordinate classes (present, absent, x/y beyond the level, level 31 corner, z 40/255/256, non-numeric, "
+    rule = ("TLC enumerates 4 server instances (best/fast x flip/swap flags) x 15 sources (pbf stored none/gzip/brotli, png/jpg/webp stored none and gzip/brotli, mbtiles, "
+            "pmtiles, tar; named as [id]path, path[id], path#id or plain path; three ids that need percent-encoding) x 29 coordinate classes (present, absent, x/y beyond the level, level 31 corner, z 40/255/256, non-numeric, "
             "extensions, non-ASCII digits) x all 32 Accept-Encoding subsets x header renderings; every request is sent over raw TCP to the "
             "real binary and the exchange is judged by TLC with the response relation. non-trivial = request with a non-empty "
             "Accept-Encoding and (compressed source, transform flag, or non-plain coordinate)")
